@@ -1,8 +1,30 @@
 CFG = dict(
      claimed=True,
-     rule="placeholder",
-     assumptions=[],
-     technique="property-based testing",
-     level_text="",
-     level_note="",
+     rule="Cases: (parser option set [ParseStandard, 5/6 fields, required/optional seconds, optional day-of-week, reduced field subsets, "
+          "descriptors on/off], expression drawn from the documented grammar [*, ?, n, n-m, */s, n/s, n-m/s, lists of 1-3 terms, month/day "
+          "names in any case, @-descriptors, @every d], optional TZ=/CRON_TZ= prefix, schedule zone [fixed-offset, ordinary DST, unusual "
+          "transitions: half-hour shifts, transitions at local midnight, whole-day skips], start instant [uniform 1990-2035, +-36 h around "
+          "the zone's transitions, month/year ends, leap days, 2096-2104 for the five-year bound; random nanoseconds], location in which the "
+          "instant is presented). Non-trivial (Next cases): the expression is accepted, at least one field is restricted, and the search "
+          "wrapped a field (hit in a later minute/hour/day/month/year than the first candidate second), crossed a zone transition, or used "
+          "either-day matching; distinct by (expression, option set, zone, start-instant class). Refusal cases (one damage per listed class) "
+          "and the sweeps (every single term of every field; every inverted pair / zero step / out-of-range value; 29-February starts across "
+          "2000 and 2100) count each distinct input; @every cases are non-trivial when the start has a sub-second part or d is fractional or "
+          "below one second.",
+     assumptions=["the Go standard library's time zone database look-ups (Zone, ZoneBounds, LoadLocation; embedded time/tzdata as fallback) are correct; "
+                  "where ZoneBounds reports an already-past end for extrapolated rules (31 December of leap years after 2037) only offsets are trusted",
+                  "a schedule without a TZ=/CRON_TZ= prefix is interpreted in the location of the instant passed to Next (as spec.go documents and the Cron runner arranges)",
+                  "'restricted' for the either-day rule is read from doc.go: a field containing a bare * or ? is unrestricted, */n (n>1) is 'first-last/n' and hence restricted; "
+                  "'*/1' and a star inside a longer list are not settled by the documentation and both readings are accepted",
+                  "'@every d' with a sub-second part in d drops it, as constantdelay.go documents",
+                  "rapid v1.3.0 and the Go runtime are correct"],
+     technique="property-based testing (rapid) + exhaustive single-term enumeration against an independent reference (refcron: grammar parser written from "
+               "doc.go + brute-force earliest-matching-second search over the zone's constant-offset periods), metamorphic laws, mutation of valid expressions "
+               "into each refusal class",
+     level_text="Generated-input search: every case runs kit's real Parse and Next and is judged by an explicit oracle that shares no code with kit (reference "
+                "parse into value sets and star flags; calendar enumeration in a fixed-offset view of each zone period, no DST reasoning). Exhaustive for single "
+                "terms of every field (value sets recovered by chaining Next through a full cycle) and for the refusal grids; sampled for lists, option sets, "
+                "zones and start instants. Non-termination is detected by a real-time deadline (60 s, >10^4 x the slowest legitimate call). No absence claim.",
+     level_note="Trusts the Go time package (zone data and ZoneBounds), rapid, and the harness' own reference implementation (self-tested on hand-computed "
+                "instants incl. New York gap/overlap, Apia's skipped day, Lord Howe's half-hour shift, and against a second-by-second scan).",
      timeout_quick=600, timeout_thorough=3000)
